@@ -2,8 +2,9 @@
    structure, hash fields, program headers, bitstream parse.  Definitions only;
    soundness statements are in Dxil/CheckProofs.v. *)
 From Coq Require Import List ZArith Bool String.
+Local Notation length := List.length.
 Import ListNotations.
-Require Import Naga.Dxil.BitsModel Naga.Dxil.BitstreamModel Naga.Dxil.DxbcModel Naga.Dxil.Md5Model.
+Require Import Naga.Dxil.BitsModel Naga.Dxil.BitstreamModel Naga.Dxil.DxbcModel Naga.Dxil.Md5Model Naga.Dxil.MetaModel.
 Open Scope Z_scope.
 
 Fixpoint list_eqb (a b : list Z) : bool :=
@@ -25,6 +26,119 @@ Definition expected_order (fcs : list Z) : bool :=
   list_eqb fcs [FourCC_SFI0; FourCC_ISG1; FourCC_OSG1; FourCC_PSV0; FourCC_STAT; FourCC_HASH; FourCC_DXIL]
   || list_eqb fcs [FourCC_SFI0; FourCC_ISG1; FourCC_OSG1; FourCC_PSG1; FourCC_PSV0; FourCC_STAT; FourCC_HASH; FourCC_DXIL].
 
+(* ---- structural checks of the signature parts (signature.go EncodeSignature) and of
+   PSV0 (psv.go EncodePSV0); error = Some message ---- *)
+
+Definition u32_at (d : list Z) (off : Z) : Z := le_val (firstn 4 (skipn (Z.to_nat off) d)).
+Definition u8_at (d : list Z) (off : Z) : Z := nth (Z.to_nat off) d (-1).
+
+(* a NUL byte occurs at or after off, inside d *)
+Definition nul_terminated_at (d : list Z) (off : Z) : bool :=
+  (0 <=? off) && (off <? zlen d) && existsb (Z.eqb 0) (skipn (Z.to_nat off) d).
+
+Fixpoint sig_elems_ok (d : list Z) (fixed : Z) (n : nat) (base : Z) : option string :=
+  match n with
+  | O => None
+  | S n' =>
+    if negb (u32_at d base =? 0) then Some ("signature element stream is not 0"%string)
+    else if negb ((fixed <=? u32_at d (base + 4)) && nul_terminated_at d (u32_at d (base + 4))) then Some ("signature semantic name offset outside the string table"%string)
+    else if negb (u32_at d (base + 16) <=? 3) then Some ("signature component type out of range"%string)
+    else if negb ((u8_at d (base + 24) <=? 15) && (1 <=? u8_at d (base + 24))) then Some ("signature component mask empty or above 0xF"%string)
+    else if negb (u8_at d (base + 25) <=? 15) then Some ("signature read/write mask above 0xF"%string)
+    else if negb ((u8_at d (base + 26) =? 0) && (u8_at d (base + 27) =? 0) && (u32_at d (base + 28) =? 0)) then Some ("signature element padding / min precision not zero"%string)
+    else sig_elems_ok d fixed n' (base + 32)
+  end.
+
+(* returns (element count, error) *)
+Definition sig_part_check (d : list Z) : Z * option string :=
+  if zlen d <? 8 then (0, Some ("signature part shorter than its header"%string)) else
+  let n := u32_at d 0 in
+  let fixed := 8 + 32 * n in
+  if negb (u32_at d 4 =? 8) then (n, Some ("signature ParamOffset is not 8"%string))
+  else if zlen d <? fixed then (n, Some ("signature elements exceed the part"%string))
+  else if negb (zlen d mod 4 =? 0) then (n, Some ("signature part not 4-byte aligned"%string))
+  else if (n =? 0) && negb (zlen d =? 8) then (n, Some ("empty signature with trailing bytes"%string))
+  else (n, sig_elems_ok d fixed (Z.to_nat n) 8).
+
+Fixpoint psv_resources_ok (d : list Z) (n : nat) (base : Z) : option string :=
+  match n with
+  | O => None
+  | S n' =>
+    if negb ((1 <=? u32_at d base) && (u32_at d base <=? 9)) then Some ("PSV0 resource type out of range"%string)
+    else if negb (u32_at d (base + 8) <=? u32_at d (base + 12)) then Some ("PSV0 resource lower bound above upper bound"%string)
+    else if negb ((1 <=? u32_at d (base + 16)) && (u32_at d (base + 16) <=? 16)) then Some ("PSV0 resource kind out of range"%string)
+    else psv_resources_ok d n' (base + 24)
+  end.
+
+Record psv_info := mkPsv { psv_stage : Z; psv_sig_in : Z; psv_sig_out : Z; psv_sig_patch : Z; psv_nres : Z;
+                           psv_entry_name : list Z; psv_threads : list Z }.
+
+Fixpoint take_until_nul (l : list Z) : list Z :=
+  match l with
+  | [] => []
+  | b :: l' => if b =? 0 then [] else b :: take_until_nul l'
+  end.
+
+(* walks the part exactly as EncodePSV0 lays it out; the part must end where the walk ends *)
+Definition psv_part_check (d : list Z) : option psv_info * option string :=
+  if zlen d <? 4 + 52 + 4 then (None, Some ("PSV0 shorter than runtime info"%string)) else
+  if negb (u32_at d 0 =? 52) then (None, Some ("PSV0 runtime info size is not 52 (PSVRuntimeInfo3)"%string)) else
+  let rti := 4 in
+  let stage := u8_at d (rti + 24) in
+  let sin := u8_at d (rti + 28) in let sout := u8_at d (rti + 29) in let spatch := u8_at d (rti + 30) in
+  let vin := u8_at d (rti + 31) in let vout := u8_at d (rti + 32) in
+  let entry_off := u32_at d (rti + 48) in
+  let p0 := 4 + 52 in
+  let nres := u32_at d p0 in
+  let p1 := p0 + 4 in
+  if (0 <? nres) && negb (u32_at d p1 =? 24) then (None, Some ("PSV0 resource record size is not 24"%string)) else
+  let p2 := if 0 <? nres then p1 + 4 + 24 * nres else p1 in
+  if zlen d <? p2 + 4 then (None, Some ("PSV0 truncated in resource table"%string)) else
+  let strsz := u32_at d p2 in
+  let p3 := p2 + 4 + strsz in
+  if negb (strsz mod 4 =? 0) then (None, Some ("PSV0 string table size not 4-byte aligned"%string)) else
+  if zlen d <? p3 + 4 then (None, Some ("PSV0 truncated in string table"%string)) else
+  let strtab := firstn (Z.to_nat strsz) (skipn (Z.to_nat (p2 + 4)) d) in
+  let nsem := u32_at d p3 in
+  let p4 := p3 + 4 + 4 * nsem in
+  let nsig := sin + sout + spatch in
+  let p5 := if 0 <? nsig then p4 + 4 + 16 * nsig else p4 in
+  if (0 <? nsig) && negb (u32_at d p4 =? 16) then (None, Some ("PSV0 signature element size is not 16"%string)) else
+  let dep := if (0 <? nsig) && (0 <? vin) && (0 <? vout) then 4 * (((vout + 7) / 8) * vin * 4) else 0 in
+  let info := mkPsv stage sin sout spatch nres (take_until_nul (skipn (Z.to_nat entry_off) strtab))
+                    [u32_at d (rti + 36); u32_at d (rti + 40); u32_at d (rti + 44)] in
+  if (0 <? spatch) && (zlen d =? p4 + 4 + 16 * (sin + sout) + dep)
+  then (Some info, Some ("PSV0 declares primitive/patch-constant signature elements but stores none"%string))
+  else if negb (zlen d =? p5 + dep) then (Some info, Some ("PSV0 part does not end where its tables end"%string))
+  else if negb ((entry_off <? strsz) && nul_terminated_at strtab entry_off) then (Some info, Some ("PSV0 entry function name offset outside the string table"%string))
+  else (Some info, psv_resources_ok d (Z.to_nat nres) (p1 + 4)).
+
+Definition first_err (l : list (option string)) : option string :=
+  fold_right (fun x acc => match x with Some e => Some e | None => acc end) None l.
+
+(* all interface parts of a container, and their mutual consistency *)
+Definition sig_check (ps : list part) (prog_kind : Z) : option psv_info * option string :=
+  let chk fc := match find_part fc ps with Some p => Some (sig_part_check (p_data p)) | None => None end in
+  match chk FourCC_ISG1, chk FourCC_OSG1, find_part FourCC_PSV0 ps with
+  | Some (nin, ein), Some (nout, eout), Some pv =>
+    let '(info, epsv) := psv_part_check (p_data pv) in
+    let npatch := match chk FourCC_PSG1 with Some (n, _) => n | None => 0 end in
+    let epatch := match chk FourCC_PSG1 with Some (_, e) => e | None => None end in
+    (info,
+     first_err [ein; eout; epatch; epsv;
+                match info with
+                | Some i =>
+                  if negb (psv_stage i =? prog_kind) then Some ("PSV0 shader stage differs from the program header kind"%string)
+                  else if (0 <? psv_sig_in i + psv_sig_out i + psv_sig_patch i) &&
+                          negb ((psv_sig_in i =? nin) && (psv_sig_out i =? nout) && (psv_sig_patch i =? npatch))
+                       then Some ("PSV0 signature element counts differ from ISG1/OSG1/PSG1"%string)
+                  else None
+                | None => None
+                end])
+  | _, _, _ => (None, Some ("ISG1, OSG1 or PSV0 part missing"%string))
+  end.
+
+
 Record report := mkReport {
   r_parts : list (Z * Z);            (* fourcc, data size *)
   r_order_ok : bool;
@@ -34,7 +148,9 @@ Record report := mkReport {
   r_stat_same_bitcode : bool;
   r_hash_part_ok : bool;             (* HASH body = flags 0 ++ md5(bitcode) *)
   r_sfi0_ok : bool;                  (* SFI0 body is 8 bytes *)
-  r_stream : res (list item)         (* parse of the DXIL bitcode *)
+  r_stream : res (list item);        (* parse of the DXIL bitcode *)
+  r_meta : option (option (option ref));   (* index check of the parsed module: None = stream did not parse *)
+  r_sig : option psv_info * option string  (* interface parts *)
 }.
 
 Definition opt_bind {A B} (o : option A) (f : A -> option B) : option B :=
@@ -61,7 +177,12 @@ Definition check_container (steps : list md5_step) (b : list Z) : option report 
        | _, _ => false
        end)
       (match find_part FourCC_SFI0 ps with Some p => zlen (p_data p) =? 8 | None => false end)
-      (match dx with Some a => dec_bytes (pg_bitcode a) | None => Err EMagic 0 end))
+      (match dx with Some a => dec_bytes (pg_bitcode a) | None => Err EMagic 0 end)
+      (match dx with
+       | Some a => match dec_bytes (pg_bitcode a) with Ok l => Some (meta_check l) | Err _ _ => None end
+       | None => None
+       end)
+      (sig_check ps (match dx with Some a => pg_kind a | None => -1 end)))
   end.
 
 (* tree statistics *)
